@@ -97,7 +97,52 @@ def step_formula(e, mult, inc, mod):
     return True, kind
 
 
+def rnd_after_syntax(ck, F):
+    """The generator advances only for an RND call that has been parsed completely: nothing that can still reject the call's
+    syntax (`expect_next_token`) runs after Rng::rnd within the builtin's evaluation.  A helper that applies the builtin as soon as
+    the argument is known and checks the closing parenthesis afterwards lets a rejected line (`X = RND(1`) consume an element."""
+    n = 0
+    for p, b in sorted(F.bodies.items()):
+        if b.crate != "abasic_core" or "::tests" in p:
+            continue
+        for c in b.calls():
+            if not c.callee.endswith("random::Rng::rnd"):
+                continue
+            n += 1
+            hosts = []          # (body, block after which syntax checks must not follow)
+            if "::{closure" not in p:
+                hosts.append((b, c.bb))
+            else:
+                parent = F.bodies.get(p.split("::{closure", 1)[0])
+                if parent is not None:
+                    for pc in parent.calls():
+                        for a in pc.args:
+                            ae = strip_expr(parent.expr(a))
+                            if ae[0] == "agg" and ae[1] == p:
+                                hosts.append((parent, pc.bb))                 # after the helper returns, in the parent
+                                hb = F.bodies.get(pc.callee)
+                                if hb is not None:                             # and inside the helper, after it invokes the closure
+                                    for hc in hb.calls():
+                                        if hc.indirect or hc.callee.split("::")[-1] in ("call_once", "call_mut", "call"):
+                                            hosts.append((hb, hc.bb))
+            late = []
+            for (hb, bb) in hosts:
+                after = hb.blocks_reachable_from(bb) - {bb}
+                late += [x.callee.split("::")[-1] for x in hb.calls() if x.bb in after and
+                         x.callee.split("::")[-1] in ("expect_next_token",)]
+            ck.require(not late, "C18:STATE:rnd-after-the-call-is-parsed:%s" % p.split("::{closure")[0].split("::")[-1], "generator state",
+                       "no syntax check of the call follows Rng::rnd",
+                       "%s draws from the generator before the rest of the RND call has been parsed (%s follows): a line that is then "
+                       "rejected has already consumed an element of the sequence" % (p, ", ".join(sorted(set(late)))), c.span)
+    ck.floor("C18.call sites of Rng::rnd", n, 1)
+
+
 def run(ck, F, E):
+    rnd_after_syntax(ck, F)
+    _run(ck, F, E)
+
+
+def _run(ck, F, E):
     mult, inc, mod = F.const("random::MULTIPLIER"), F.const("random::INCREMENT"), F.const("random::MODULUS")
     ck.require(mult == 1664525, "C18:CONST:MULTIPLIER", "constants", "MULTIPLIER == 1664525", "MULTIPLIER is %r" % mult)
     ck.require(inc == 1013904223, "C18:CONST:INCREMENT", "constants", "INCREMENT == 1013904223", "INCREMENT is %r" % inc)
